@@ -15,6 +15,7 @@ RLIMIT = int(os.environ.get("PVC_RLIMIT", "40000000"))
 # wall-clock budgets are only a safety net behind the deterministic rlimit: they are stretched by this factor so
 # that a busy machine (16 cores shared with other jobs) does not turn a provable obligation into `unknown`
 TF = float(os.environ.get("PVC_TIME_FACTOR", "8"))
+SMALL_RL = int(os.environ.get("PVC_SMALL_RLIMIT", "3000000"))
 
 
 class Verdict:
@@ -80,11 +81,17 @@ def _rl_note(stage, solver, res):
         pass
 
 
-def prove(assumptions, goal, timeout_ms=None, use_cvc5=True, cross_check=False, tactic=None, rlimit=None, quick=False):
+def prove(assumptions, goal, timeout_ms=None, use_cvc5=True, cross_check=False, tactic=None, rlimit=None, quick=False,
+          hard_wall_ms=None):
     """returns dict(verdict, backend, seconds, model (z3 ModelRef or None), reason)"""
     timeout_ms = timeout_ms or Z3_TIMEOUT_MS
     t0 = time.time()
     RL = rlimit or RLIMIT
+    # hard_wall_ms: for pure optimisation queries (choice of a smaller assumption set) whose outcome never
+    # changes a verdict -- a flat wall-clock cap, not stretched (z3 does not poll rlimit inside some nla loops)
+    tf = TF if hard_wall_ms is None else 1.0
+    if hard_wall_ms is not None:
+        timeout_ms = hard_wall_ms
     if isinstance(goal, bool):
         goal = z3.BoolVal(goal)
     out = {"backend": "z3-" + z3.get_version_string(), "seconds": 0.0, "model": None, "reason": "",
@@ -95,20 +102,36 @@ def prove(assumptions, goal, timeout_ms=None, use_cvc5=True, cross_check=False, 
         rel = relevant(assumptions, goal)
     except Exception:  # noqa
         rel = None
+    tried_abs = False
     if rel is not None and len(rel) < len(flatten(assumptions)):
-        s0 = z3.SimpleSolver()
-        s0.set("timeout", int(min(timeout_ms, 4000) * TF))
-        s0.set("rlimit", RL)
-        for a in rel:
-            s0.add(a)
-        s0.add(z3.Not(goal))
-        r0_ = s0.check()
-        _rl_note("cone", s0, r0_)
-        if r0_ == z3.unsat:
-            out["verdict"] = Verdict.PROVED
-            out["backend"] = "z3-%s (smt-core, cone of influence)" % z3.get_version_string()
-            out["seconds"] = time.time() - t0
-            return _finish(out, assumptions, goal, use_cvc5, cross_check)
+        # the cone-of-influence query: first with a small budget (covers ~99 % of the obligations), then -- for
+        # full-budget calls -- the nlsat route on the grounded, UF-abstracted query (nonlinear identities with
+        # divisions are decided there in milliseconds while the SMT core may need minutes), then the full budget
+        budgets = [RL] if (quick or RL <= SMALL_RL) else [SMALL_RL, "nl-as-uf", RL]
+        for bud in budgets:
+            if bud == "nl-as-uf":
+                b = prove_nl_as_uf(rel, goal)
+                if b is not None:
+                    out["verdict"] = Verdict.PROVED
+                    out["backend"] = b
+                    out["seconds"] = time.time() - t0
+                    return _finish(out, assumptions, goal, use_cvc5, cross_check)
+                continue
+            s0 = z3.SimpleSolver()
+            s0.set("timeout", int(min(timeout_ms, 4000) * tf))
+            s0.set("rlimit", bud)
+            for a in rel:
+                s0.add(a)
+            s0.add(z3.Not(goal))
+            r0_ = s0.check()
+            _rl_note("cone", s0, r0_)
+            if r0_ == z3.unsat:
+                out["verdict"] = Verdict.PROVED
+                out["backend"] = "z3-%s (smt-core, cone of influence)" % z3.get_version_string()
+                out["seconds"] = time.time() - t0
+                return _finish(out, assumptions, goal, use_cvc5, cross_check)
+            if r0_ == z3.sat:
+                break       # the cone is weaker than the full assumption set: decide on the full query
     # (budgets are rlimit-bound, so a second smt-core stage with a longer wall-clock budget would repeat the first)
     stages = [("smt-core", z3.SimpleSolver, min(timeout_ms, 6000)),
               ("abstracted", None, min(timeout_ms, 10000)),
@@ -117,6 +140,8 @@ def prove(assumptions, goal, timeout_ms=None, use_cvc5=True, cross_check=False, 
         stages = stages[:1]
     for name, mk, tmo in stages:
         if name == "abstracted":
+            if tried_abs:
+                continue
             b = prove_abstracted(assumptions, goal, tmo)
             if b is not None:
                 out["verdict"] = Verdict.PROVED
@@ -126,7 +151,7 @@ def prove(assumptions, goal, timeout_ms=None, use_cvc5=True, cross_check=False, 
         if quick and name != "smt-core":
             continue
         s = mk()
-        s.set("timeout", int(tmo * TF))
+        s.set("timeout", int(tmo * tf))
         s.set("rlimit", RL if name == "smt-core" else max(RL // 4, 1000000))
         for a in assumptions:
             s.add(a)
@@ -181,6 +206,82 @@ def satisfiable(formulas, timeout_ms=5000):
         s.add(f)
     r = s.check()
     return r == z3.sat, (s.model() if r == z3.sat else None), str(r)
+
+
+# ---------------------------------------------------------------------------------------------
+# nonlinear operators as uninterpreted functions (a sound weakening for PROVING: every model of the negated
+# obligation under real arithmetic is a model of the abstraction with mul!/div! interpreted as * and /; so
+# unsat of the abstraction implies unsat of the original).  Twin equalities whose two sides have the same
+# operator structure are decided by congruence closure in milliseconds this way; sat answers are ignored.
+
+_MUL = z3.Function("mul!uf", z3.RealSort(), z3.RealSort(), z3.RealSort())
+_DIV = z3.Function("div!uf", z3.RealSort(), z3.RealSort(), z3.RealSort())
+_POW = z3.Function("pow!uf", z3.RealSort(), z3.RealSort(), z3.RealSort())
+
+
+def nl_as_uf(formulas):
+    cache = {}
+
+    def is_num(t):
+        return z3.is_rational_value(t) or z3.is_int_value(t) or z3.is_algebraic_value(t)
+
+    def ab(t):
+        i = t.get_id()
+        if i in cache:
+            return cache[i]
+        if z3.is_quantifier(t):
+            if t.num_vars() and (z3.is_app(t.body()) or z3.is_quantifier(t.body())):
+                nb = ab(t.body())
+                vs = [z3.Const(t.var_name(k), t.var_sort(k)) for k in range(t.num_vars())]
+                # de Bruijn bodies: rebuild through substitute_vars on fresh constants is fragile; keep quantified
+                # formulas as they are (they hold no nonlinear operator in the obligations generated here)
+                r = t
+            else:
+                r = t
+        elif z3.is_app(t) and t.num_args() > 0:
+            args = [ab(t.arg(k)) for k in range(t.num_args())]
+            k_ = t.decl().kind()
+            if k_ == z3.Z3_OP_MUL and z3.is_real(t):
+                nums = [a for a in args if is_num(a)]
+                rest = sorted([a for a in args if not is_num(a)], key=lambda a: a.get_id())
+                if len(rest) <= 1:
+                    r = t.decl()(*args)
+                else:
+                    acc = rest[0]
+                    for a in rest[1:]:
+                        acc = _MUL(acc, a)
+                    for c in nums:
+                        acc = c * acc
+                    r = acc
+            elif k_ == z3.Z3_OP_DIV and not is_num(args[1]):
+                r = _DIV(args[0], args[1])
+            elif k_ == z3.Z3_OP_POWER and not (is_num(args[1]) and is_num(args[0])):
+                r = _POW(args[0], args[1])
+            else:
+                r = t.decl()(*args)
+        else:
+            r = t
+        cache[i] = r
+        return r
+    return [ab(f) for f in formulas]
+
+
+def prove_nl_as_uf(assumptions, goal, rlimit=None):
+    try:
+        fs = nl_as_uf(list(assumptions) + [goal])
+    except Exception:  # noqa
+        return None
+    s = z3.SimpleSolver()
+    s.set("timeout", int(4000 * TF))
+    s.set("rlimit", rlimit or SMALL_RL)
+    for a in fs[:-1]:
+        s.add(a)
+    s.add(z3.Not(fs[-1]))
+    r = s.check()
+    _rl_note("nl-as-uf", s, r)
+    if r == z3.unsat:
+        return "z3-%s (nonlinear operators as uninterpreted functions, congruence)" % z3.get_version_string()
+    return None
 
 
 # ---------------------------------------------------------------------------------------------
